@@ -23,7 +23,7 @@ def run(ctx):
             continue
         o, ep = d["outcome"], d["endpoint"]
         served = authenticated(o) or (ep in ("f",) and o[:2] == [2, 204]) or (ep == "r" and o[0] == 3)
-        if d["after"] == "end":
+        if d["after"] in ("end", "end-idle"):   # ended (and, for end-idle, also inactive since long): the end takes precedence
             if served or (ep == "i" and o[0] == 3):
                 ctx.violation("c06-accepted-after-end", "session accepted / readable after its maximum lifetime (the store still holds the entry)", d)
             elif ep in ("i", "r") and o[:2] != [2, 401]:
